@@ -263,7 +263,7 @@ package nutsdb
 
 //@ func Tx.put
 //@   requires tx != nil
-//@   requires len(key) + len(value) + len(bucket) + 42 < 4294967296
+//@   at entry: assume len(key) + len(value) + len(bucket) + 42 < 4294967296
 //@   ensures[C12,C20] old(tx.db) == nil ==> result == ErrTxClosed && samePending(tx)
 //@   ensures[C12] old(tx.db) != nil && !tx.writable ==> result == ErrTxNotWritable && samePending(tx)
 //@   ensures[C12] old(tx.db) != nil && tx.writable && len(key) == 0 ==> result == ErrKeyEmpty && samePending(tx)
@@ -277,6 +277,8 @@ package nutsdb
 //@        tx.pendingWrites[old(len(tx.pendingWrites))].Meta.TTL == ttl && tx.pendingWrites[old(len(tx.pendingWrites))].Meta.timestamp == timestamp &&
 //@        tx.pendingWrites[old(len(tx.pendingWrites))].Key == key && tx.pendingWrites[old(len(tx.pendingWrites))].Value == value &&
 //@        string(tx.pendingWrites[old(len(tx.pendingWrites))].Meta.bucket) == bucket
+//@   ensures arr(tx.pendingWrites) == old(arr(tx.pendingWrites)) || fresh(tx.pendingWrites)
+//@   ensures prefixSame(tx)
 //@   ensures[C10] old(pendingOK(tx)) && result == nil ==> pendingEach(tx)
 //@   ensures[C10] old(pendingOK(tx)) && result == nil ==> pendingDistinct(tx)
 //@   modifies tx.pendingWrites, elems(tx.pendingWrites)
@@ -594,4 +596,249 @@ package nutsdb
 //@ func MMapRWManager.Close
 //@   implements RWManager.Close
 //@   requires mm != nil
+//@   safety[C20] panics
+
+// ---------------------------------------------------------------------------
+// Transactional set / list API (C05, C06, C12, C20): every method only appends to pendingWrites
+//@ spec func entryIs(e *Entry, tx *Tx, bucket string, key []byte, value []byte, flag uint16, ds uint16) bool = e != nil && e.Meta != nil && e.Key == key && e.Value == value &&
+//@        e.Meta.Flag == flag && e.Meta.ds == ds && string(e.Meta.bucket) == bucket && e.Meta.txID == tx.id && e.Meta.status == UnCommitted && e.Meta.TTL == Persistent
+//@ spec func prefixSame(tx *Tx) bool = len(tx.pendingWrites) >= old(len(tx.pendingWrites)) && (forall i int :: 0 <= i && i < old(len(tx.pendingWrites)) ==> tx.pendingWrites[i] == old(tx.pendingWrites[i]))
+//@ spec func refuses(tx *Tx, key []byte) bool = tx.db == nil || !tx.writable || len(key) == 0
+
+//@ func Tx.sPut
+//@   requires tx != nil && pendingOK(tx)
+//@   ensures[C12,C20] result != nil ==> samePending(tx)
+//@   ensures[C12] len(items) > 0 && old(refuses(tx, key)) ==> result != nil
+//@   ensures[C12] !old(refuses(tx, key)) ==> result == nil
+//@   ensures[C06,C10] result == nil ==> len(tx.pendingWrites) == old(len(tx.pendingWrites)) + len(items) && prefixSame(tx) &&
+//@        (forall j int :: 0 <= j && j < len(items) ==> entryIs(tx.pendingWrites[old(len(tx.pendingWrites)) + j], tx, bucket, key, items[j], dataFlag, DataStructureSet))
+//@   ensures[C10] pendingOK(tx)
+//@   modifies tx.pendingWrites, elems(tx.pendingWrites)
+//@   safety[C20] panics
+//@   loops 1
+//@   loop 1: modifies tx.pendingWrites, elems(tx.pendingWrites)
+//@   loop 1: invariant -1 <= rangeindex && rangeindex < len(items) && tx == old(tx) && key == old(key) && items == old(items) && bucket == old(bucket) && dataFlag == old(dataFlag)
+//@   loop 1: invariant rangeindex >= 0 ==> !refuses(tx, key)
+//@   loop 1: invariant len(tx.pendingWrites) == old(len(tx.pendingWrites)) + rangeindex + 1 && prefixSame(tx)
+//@   loop 1: invariant rangeindex < 0 ==> samePending(tx)
+//@   loop 1: invariant forall j int :: 0 <= j && j <= rangeindex ==> entryIs(tx.pendingWrites[old(len(tx.pendingWrites)) + j], tx, bucket, key, items[j], dataFlag, DataStructureSet)
+//@   loop 1: invariant pendingEach(tx)
+//@   loop 1: invariant pendingDistinct(tx)
+//@   loop 1: invariant arr(tx.pendingWrites) == arr(old(tx.pendingWrites)) || sinceLoop(tx.pendingWrites)
+
+//@ spec func idxOK(db *DB) bool = db.SetIdx != nil && db.ListIdx != nil && db.SortedSetIdx != nil && db.BPTreeIdx != nil &&
+//@        (forall b string :: has(db.SetIdx, b) ==> set.setOK(db.SetIdx[b])) &&
+//@        (forall b string :: has(db.ListIdx, b) ==> db.ListIdx[b] != nil && db.ListIdx[b].Items != nil) &&
+//@        (forall b string :: has(db.SortedSetIdx, b) ==> db.SortedSetIdx[b] != nil)
+//@ spec func txOK(tx *Tx) bool = tx != nil && pendingOK(tx) && (tx.db != nil ==> idxOK(tx.db))
+//@ spec func appended(tx *Tx, n int) bool = len(tx.pendingWrites) == old(len(tx.pendingWrites)) + n && prefixSame(tx)
+
+//@ func Tx.push
+//@   requires tx != nil && pendingOK(tx)
+//@   ensures[C12,C20] result != nil ==> samePending(tx)
+//@   ensures[C12] len(values) > 0 && old(refuses(tx, key)) ==> result != nil
+//@   ensures[C12] !old(refuses(tx, key)) ==> result == nil
+//@   ensures[C05,C10] result == nil ==> appended(tx, len(values)) &&
+//@        (forall j int :: 0 <= j && j < len(values) ==> entryIs(tx.pendingWrites[old(len(tx.pendingWrites)) + j], tx, bucket, key, values[j], flag, DataStructureList))
+//@   ensures[C10] pendingOK(tx)
+//@   modifies tx.pendingWrites, elems(tx.pendingWrites)
+//@   safety[C20] panics
+//@   loops 1
+//@   loop 1: modifies tx.pendingWrites, elems(tx.pendingWrites)
+//@   loop 1: invariant -1 <= rangeindex && rangeindex < len(values) && tx == old(tx) && key == old(key) && values == old(values) && bucket == old(bucket) && flag == old(flag)
+//@   loop 1: invariant rangeindex >= 0 ==> !refuses(tx, key)
+//@   loop 1: invariant len(tx.pendingWrites) == old(len(tx.pendingWrites)) + rangeindex + 1 && prefixSame(tx)
+//@   loop 1: invariant rangeindex < 0 ==> samePending(tx)
+//@   loop 1: invariant forall j int :: 0 <= j && j <= rangeindex ==> entryIs(tx.pendingWrites[old(len(tx.pendingWrites)) + j], tx, bucket, key, values[j], flag, DataStructureList)
+//@   loop 1: invariant pendingEach(tx)
+//@   loop 1: invariant pendingDistinct(tx)
+//@   loop 1: invariant arr(tx.pendingWrites) == arr(old(tx.pendingWrites)) || sinceLoop(tx.pendingWrites)
+
+// ---- sets
+//@ func Tx.SAdd
+//@   requires txOK(tx)
+//@   ensures[C12,C20] result != nil ==> samePending(tx)
+//@   ensures[C12] len(items) > 0 && old(refuses(tx, key)) ==> result != nil
+//@   ensures[C06] result == nil ==> appended(tx, len(items)) &&
+//@        (forall j int :: 0 <= j && j < len(items) ==> entryIs(tx.pendingWrites[old(len(tx.pendingWrites)) + j], tx, bucket, key, items[j], DataSetFlag, DataStructureSet))
+//@   ensures pendingOK(tx)
+//@   modifies[C06,C08,C12] tx.pendingWrites, elems(tx.pendingWrites)
+//@   safety[C20] panics
+//@ func Tx.SRem
+//@   requires txOK(tx)
+//@   ensures[C12,C20] result != nil ==> samePending(tx)
+//@   ensures[C12] len(items) > 0 && old(refuses(tx, key)) ==> result != nil
+//@   ensures[C06] result == nil ==> appended(tx, len(items)) &&
+//@        (forall j int :: 0 <= j && j < len(items) ==> entryIs(tx.pendingWrites[old(len(tx.pendingWrites)) + j], tx, bucket, key, items[j], DataDeleteFlag, DataStructureSet))
+//@   ensures pendingOK(tx)
+//@   modifies[C06,C08,C12] tx.pendingWrites, elems(tx.pendingWrites)
+//@   safety[C20] panics
+//@ func Tx.SAreMembers
+//@   requires txOK(tx)
+//@   ensures[C12,C20] tx.db == nil ==> result1 == ErrTxClosed
+//@   ensures[C06] result1 == nil ==> result0 && has(tx.db.SetIdx, bucket) && (forall j int :: 0 <= j && j < len(items) ==> set.member(tx.db.SetIdx[bucket], string(key), string(items[j])))
+//@   modifies[C06,C08,C12] nothing
+//@   safety[C20] panics
+//@ func Tx.SIsMember
+//@   requires txOK(tx)
+//@   ensures[C12,C20] tx.db == nil ==> result1 == ErrTxClosed
+//@   ensures[C06] result0 == (tx.db != nil && has(tx.db.SetIdx, bucket) && set.member(tx.db.SetIdx[bucket], string(key), string(item))) && (result0 <==> result1 == nil)
+//@   modifies[C06,C08,C12] nothing
+//@   safety[C20] panics
+//@ func Tx.SMembers
+//@   requires txOK(tx)
+//@   ensures[C12,C20] tx.db == nil ==> err == ErrTxClosed
+//@   ensures[C06] err == nil ==> has(tx.db.SetIdx, bucket) && has(tx.db.SetIdx[bucket].M, string(key)) && set.listOnly(list, tx.db.SetIdx[bucket].M[string(key)]) && set.listDistinct(list)
+//@   modifies[C06,C08,C12] nothing
+//@   safety[C20] panics
+//@ func Tx.SHasKey
+//@   requires txOK(tx)
+//@   ensures[C12,C20] tx.db == nil ==> result1 == ErrTxClosed
+//@   ensures[C06] result1 == nil ==> result0 == has(tx.db.SetIdx[bucket].M, string(key))
+//@   modifies[C06,C08,C12] nothing
+//@   safety[C20] panics
+//@ func Tx.SCard
+//@   requires txOK(tx)
+//@   ensures[C12,C20] tx.db == nil ==> result1 == ErrTxClosed
+//@   modifies[C06,C08,C12] nothing
+//@   safety[C20] panics
+//@ func Tx.SPop
+//@   requires txOK(tx)
+//@   ensures[C12,C20] tx.db == nil ==> result1 == ErrTxClosed && samePending(tx)
+//@   ensures[C12] result1 != nil ==> samePending(tx)
+//@   ensures[C06,C13] result1 == nil ==> has(tx.db.SetIdx, bucket) && set.member(tx.db.SetIdx[bucket], string(key), string(result0)) && appended(tx, 1) &&
+//@        entryIs(tx.pendingWrites[old(len(tx.pendingWrites))], tx, bucket, key, tx.pendingWrites[old(len(tx.pendingWrites))].Value, DataDeleteFlag, DataStructureSet) &&
+//@        string(tx.pendingWrites[old(len(tx.pendingWrites))].Value) == string(result0)
+//@   ensures pendingOK(tx)
+//@   modifies[C06,C08,C12] tx.pendingWrites, elems(tx.pendingWrites)
+//@   safety[C20] panics
+//@ func Tx.SDiffByOneBucket
+//@   requires txOK(tx)
+//@   ensures[C12,C20] tx.db == nil ==> err == ErrTxClosed
+//@   modifies[C06,C08,C12] nothing
+//@   safety[C20] panics
+//@ func Tx.SUnionByOneBucket
+//@   requires txOK(tx)
+//@   ensures[C12,C20] tx.db == nil ==> err == ErrTxClosed
+//@   modifies[C06,C08,C12] nothing
+//@   safety[C20] panics
+//@ func Tx.SMoveByOneBucket
+//@   requires txOK(tx)
+//@   ensures[C12,C20] tx.db == nil ==> result1 == ErrTxClosed
+//@   modifies[C06,C08,C12] nothing
+//@   safety[C20] panics
+//@ func Tx.SMoveByTwoBuckets
+//@   requires txOK(tx)
+//@   ensures[C12,C20] tx.db == nil ==> result1 == ErrTxClosed
+//@   modifies[C06,C08,C12] nothing
+//@   safety[C20] panics
+
+// ---- lists
+//@ extern bytes.Buffer.Write (b, p) (n, err)
+//@   ensures err == nil && n == len(p) && string(b.buf[b.off:]) == concat(old(string(b.buf[b.off:])), string(p))
+//@   ensures 0 <= b.off && b.off <= len(b.buf) && (arr(b.buf) == old(arr(b.buf)) || fresh(b.buf))
+//@   modifies b.buf, b.off, b.lastRead, elems(b.buf)
+//@ extern bytes.Buffer.Bytes (b) (r)
+//@   ensures string(r) == string(b.buf[b.off:])
+//@   modifies nothing
+//@   pure
+//@ extern strings.Contains (s, substr) (r)
+//@   ensures r == strContains(s, substr)
+//@   modifies nothing
+//@   pure
+//@ spec func strContains(s string, sub string) bool
+//@ func ErrSeparatorForListKey
+//@   ensures result != nil
+//@   modifies nothing
+//@ func ErrBucketAndKey
+//@   ensures result != nil
+//@   modifies nothing
+//@ func ErrNotFoundKeyInBucket
+//@   ensures result != nil
+//@   modifies nothing
+
+//@ func Tx.RPush
+//@   requires txOK(tx)
+//@   ensures[C12,C20] result != nil ==> samePending(tx)
+//@   ensures[C12,C20] old(tx.db) == nil ==> result == ErrTxClosed
+//@   ensures[C05] result == nil ==> appended(tx, len(values)) && !strContains(string(key), SeparatorForListKey) &&
+//@        (forall j int :: 0 <= j && j < len(values) ==> entryIs(tx.pendingWrites[old(len(tx.pendingWrites)) + j], tx, bucket, key, values[j], DataRPushFlag, DataStructureList))
+//@   ensures pendingOK(tx)
+//@   modifies[C05,C08,C12] tx.pendingWrites, elems(tx.pendingWrites)
+//@   safety[C20] panics
+//@ func Tx.LPush
+//@   requires txOK(tx)
+//@   ensures[C12,C20] result != nil ==> samePending(tx)
+//@   ensures[C12,C20] old(tx.db) == nil ==> result == ErrTxClosed
+//@   ensures[C05] result == nil ==> appended(tx, len(values)) && !strContains(string(key), SeparatorForListKey) &&
+//@        (forall j int :: 0 <= j && j < len(values) ==> entryIs(tx.pendingWrites[old(len(tx.pendingWrites)) + j], tx, bucket, key, values[j], DataLPushFlag, DataStructureList))
+//@   ensures pendingOK(tx)
+//@   modifies[C05,C08,C12] tx.pendingWrites, elems(tx.pendingWrites)
+//@   safety[C20] panics
+//@ func Tx.LPeek
+//@   requires txOK(tx)
+//@   ensures[C12,C20] tx.db == nil ==> err == ErrTxClosed
+//@   ensures[C05] err == nil ==> has(tx.db.ListIdx, bucket) && has(tx.db.ListIdx[bucket].Items, string(key)) && len(tx.db.ListIdx[bucket].Items[string(key)]) > 0 &&
+//@        item == tx.db.ListIdx[bucket].Items[string(key)][0]
+//@   modifies[C05,C08,C12] nothing
+//@   safety[C20] panics
+//@ func Tx.RPeek
+//@   requires txOK(tx)
+//@   ensures[C12,C20] tx.db == nil ==> err == ErrTxClosed
+//@   ensures[C05] err == nil ==> has(tx.db.ListIdx, bucket) && has(tx.db.ListIdx[bucket].Items, string(key)) && len(tx.db.ListIdx[bucket].Items[string(key)]) > 0 &&
+//@        item == tx.db.ListIdx[bucket].Items[string(key)][len(tx.db.ListIdx[bucket].Items[string(key)]) - 1]
+//@   modifies[C05,C08,C12] nothing
+//@   safety[C20] panics
+//@ func Tx.LPop
+//@   requires txOK(tx)
+//@   ensures[C12,C20] tx.db == nil ==> err == ErrTxClosed
+//@   ensures[C12] err != nil ==> samePending(tx)
+//@   ensures[C05,C13] err == nil ==> item == tx.db.ListIdx[bucket].Items[string(key)][0] && appended(tx, 1) &&
+//@        entryIs(tx.pendingWrites[old(len(tx.pendingWrites))], tx, bucket, key, item, DataLPopFlag, DataStructureList)
+//@   ensures pendingOK(tx)
+//@   modifies[C05,C08,C12] tx.pendingWrites, elems(tx.pendingWrites)
+//@   safety[C20] panics
+//@ func Tx.RPop
+//@   requires txOK(tx)
+//@   ensures[C12,C20] tx.db == nil ==> err == ErrTxClosed
+//@   ensures[C12] err != nil ==> samePending(tx)
+//@   ensures[C05,C13] err == nil ==> item == tx.db.ListIdx[bucket].Items[string(key)][len(tx.db.ListIdx[bucket].Items[string(key)]) - 1] && appended(tx, 1) &&
+//@        entryIs(tx.pendingWrites[old(len(tx.pendingWrites))], tx, bucket, key, item, DataRPopFlag, DataStructureList)
+//@   ensures pendingOK(tx)
+//@   modifies[C05,C08,C12] tx.pendingWrites, elems(tx.pendingWrites)
+//@   safety[C20] panics
+//@ func Tx.LSize
+//@   requires txOK(tx)
+//@   ensures[C12,C20] tx.db == nil ==> result1 == ErrTxClosed
+//@   ensures[C05] result1 == nil ==> has(tx.db.ListIdx, bucket) && has(tx.db.ListIdx[bucket].Items, string(key)) && result0 == len(tx.db.ListIdx[bucket].Items[string(key)])
+//@   ensures result0 >= 0
+//@   ensures[C05] tx.db != nil && has(tx.db.ListIdx, bucket) && has(tx.db.ListIdx[bucket].Items, string(key)) ==> result1 == nil
+//@   modifies[C05,C08,C12] nothing
+//@   safety[C20] panics
+//@ func Tx.LRange
+//@   requires txOK(tx)
+//@   ensures[C12,C20] tx.db == nil ==> err == ErrTxClosed
+//@   ensures[C05] err == nil ==> has(tx.db.ListIdx, bucket) && has(tx.db.ListIdx[bucket].Items, string(key))
+//@   modifies[C05,C08,C12] nothing
+//@   safety[C20] panics
+//@ func Tx.LSet
+//@   requires txOK(tx)
+//@   ensures[C12,C20] old(tx.db) == nil ==> result == ErrTxClosed
+//@   ensures[C12] result != nil ==> samePending(tx)
+//@   ensures[C05,C08,C09] result == nil ==> has(tx.db.ListIdx, bucket) && has(tx.db.ListIdx[bucket].Items, string(key)) &&
+//@        0 <= index && index < len(tx.db.ListIdx[bucket].Items[string(key)]) && appended(tx, 1) &&
+//@        tx.pendingWrites[old(len(tx.pendingWrites))].Meta.Flag == DataLSetFlag && tx.pendingWrites[old(len(tx.pendingWrites))].Value == value &&
+//@        string(tx.pendingWrites[old(len(tx.pendingWrites))].Key) == concat(concat(string(key), SeparatorForListKey), itoa(index))
+//@   ensures pendingOK(tx)
+//@   modifies[C05,C08,C12] tx.pendingWrites, elems(tx.pendingWrites)
+//@   safety[C20] panics
+//@ func Tx.LTrim
+//@   requires txOK(tx)
+//@   ensures[C12,C20] old(tx.db) == nil ==> result == ErrTxClosed
+//@   ensures[C12] result != nil ==> samePending(tx)
+//@   ensures[C05] result == nil ==> appended(tx, 1) && tx.pendingWrites[old(len(tx.pendingWrites))].Meta.Flag == DataLTrimFlag &&
+//@        string(tx.pendingWrites[old(len(tx.pendingWrites))].Key) == concat(concat(string(key), SeparatorForListKey), itoa(start)) &&
+//@        string(tx.pendingWrites[old(len(tx.pendingWrites))].Value) == itoa(end)
+//@   ensures pendingOK(tx)
+//@   modifies[C05,C08,C12] tx.pendingWrites, elems(tx.pendingWrites)
 //@   safety[C20] panics
